@@ -58,9 +58,15 @@ class Target:
 
 
 def akai_target(chk: Check, wrap_mdf: bool, work: str) -> Target:
-    cases = [c for c in c01.generate(chk, 64, chk.seed + 21, label="AKAI image for C11", nsect=28, maxparts=1, maxvols=2, maxfiles=3)
-             if sum(1 for p in c["parts"] for v in p["vols"] for f in v["files"] if f["ftype"] in (0x73, 0xF3)) >= 3
+    # the plain target has TWO partitions (each with its own allocation table and directory): streams of both are interleaved
+    nparts = 1 if wrap_mdf else 2
+    cases = [c for c in c01.generate(chk, 64 if wrap_mdf else 160, chk.seed + 21 + nparts, label=f"AKAI image for C11 ({nparts} partition(s))", nsect=28,
+                                     maxparts=nparts, maxvols=2, maxfiles=3)
+             if len(c["parts"]) == nparts
+             and all(sum(1 for v in p["vols"] for f in v["files"] if f["ftype"] in (0x73, 0xF3)) >= (3 if nparts == 1 else 2) for p in c["parts"])
              and len(c["parts"][0]["vols"]) >= 2]
+    if not cases:
+        raise tlc.TlcError(f"no generated AKAI image with {nparts} partition(s) and enough samples")
     cases.sort(key=lambda c: -sum(len(f["chain"]) for p in c["parts"] for v in p["vols"] for f in v["files"]))
     case = cases[0]
     image = aw.build_image(case, chk.seed)
@@ -71,23 +77,32 @@ def akai_target(chk: Check, wrap_mdf: bool, work: str) -> Target:
     for e in case["expected"]:
         chans = [aw.read_extents(image, case, c["part"], c["extents"]) for c in e["channels"]]
         if len(chans) == 1:
-            want[(e["path"][1], e["path"][2])] = chans[0]
+            want[(e["path"][0], e["path"][1], e["path"][2])] = chans[0]
         else:
-            want[(e["path"][1], e["path"][2] + "-L")] = chans[0]
-            want[(e["path"][1], e["path"][2] + "-R")] = chans[1]
+            want[(e["path"][0], e["path"][1], e["path"][2] + "-L")] = chans[0]
+            want[(e["path"][0], e["path"][1], e["path"][2] + "-R")] = chans[1]
     img = repo.open_image(path)
     from smpl_extract.actions import ls_action  # routines are set by ls
     repo.ls(img, "")
     strs, exp, lead = [], [], []
-    starts = {(v["name"], f["name"]): 140 + 2 * f["ps"] for p in case["parts"] for v in p["vols"] for f in v["files"]}
-    for part in img.children:
+    starts = {(chr(65 + pi), v["name"], f["name"]): 140 + 2 * f["ps"] for pi, p in enumerate(case["parts"]) for v in p["vols"] for f in v["files"]}
+    for pi, part in enumerate(img.children):
         for vol in part.children:
             for f in vol.children:
-                if hasattr(f, "_data_stream") and (vol.name, f.name) in want:
+                key = (chr(65 + pi), vol.name, f.name)
+                if hasattr(f, "_data_stream") and key in want:
                     strs.append(f._data_stream)
-                    exp.append(want[(vol.name, f.name)])
-                    lead.append(starts[(vol.name, f.name)])
+                    exp.append(want[key])
+                    lead.append(starts[key])
+    if len(strs) != len(want):
+        # the image holds len(want) sample streams; the opened image does not show them all (e.g. state left behind by an image
+        # or partition opened earlier in this process): that is an observation about the tool, not a generator problem
+        chk.evaluated(("c11-open", "akai", wrap_mdf), nontrivial=True)
+        chk.violation({"target": "akai-raw-sectors" if wrap_mdf else "akai", "case": case},
+                      f"AKAI image with {len(want)} sample streams: only {len(strs)} of them are reachable after opening (others opened before in this process)")
     ls_paths = ["A:", "A:/" + case["parts"][0]["vols"][0]["name"], "A:/" + case["parts"][0]["vols"][1]["name"], "A:/nope"]
+    if nparts == 2:
+        ls_paths += ["B:", "B:/" + case["parts"][1]["vols"][0]["name"]]
     return Target("akai-raw-sectors" if wrap_mdf else "akai", img, strs, exp, ls_paths, lead, 8192)
 
 
@@ -219,6 +234,8 @@ def run(chk: Check):
         targets = [akai_target(chk, False, work), akai_target(chk, True, work), roland_target(chk, work), cdda_target(chk, work)]
         for t in targets:
             if len(t.streams) < 2:
+                if chk.violations:          # already reported by the target builder
+                    continue
                 raise tlc.TlcError(f"target {t.name} has fewer than 2 streams")
             k = len(t.streams)
             pool = (s2 if not thorough else s2) + s2x + (s3 if k >= 3 else []) + (sl if k >= 3 else [])
